@@ -169,7 +169,7 @@ def query(p):
 class Runner:
     def __init__(self, ctx, h):
         self.ctx, self.h = ctx, h
-        self.dir = os.path.join(ctx.work, "runs")
+        self.dir = os.path.join(ctx.work, "runs-%s-%d" % (ctx.tier, os.getpid()))
         os.makedirs(self.dir, exist_ok=True)
         self.plat = os.path.join(self.dir, "plat.xml")
         with open(self.plat, "w") as fh:
